@@ -2,10 +2,13 @@
 pub mod alloc;
 pub mod drive;
 pub mod ent;
+pub mod fs_mc;
 pub mod gen;
 pub mod neg_mc;
 pub mod oracle;
 pub mod report;
+pub mod sched;
+pub mod sched_mc;
 pub mod serve_mc;
 pub mod stream_mc;
 pub mod vbuf;
